@@ -152,7 +152,7 @@ def run_shard(seed, wid, nworkers, tier):
     c = out["counters"]
     rng = random.Random(f"{seed}:{wid}")
     nthreads = 8 if tier == "quick" else 16
-    rounds = 12 if tier == "quick" else 120
+    rounds = 40 if tier == "quick" else 400
     old = sys.getswitchinterval()
     sys.setswitchinterval(1e-6)
     tool = install_yield_injector(rng.random())
